@@ -62,7 +62,8 @@ Definition spec_result (w : world) (folder : str) (rs : list str) (p : parsed)
 Definition spec_C01 (w : world) (folder : str) (rs : list str) (p : parsed) (clk : nat -> Z) : Prop :=
   spec_result w folder rs p (lmtp_data w folder rs p clk).
 
-(** the same reading for handleDATA under a configuration, whatever CheckQuota says *)
+(** the same reading for handleDATA under a configuration and a quota verdict
+    (a 552 is a refusal like any other 4xx/5xx: nothing may be filed for it) *)
 Definition spec_C01_cfg (c : cfg) (over_quota : str -> bool) (w : world) (rs : list str)
            (p : parsed) (size : Z) (clk : nat -> Z) : Prop :=
   spec_result w (c_folder c) rs p (handle_data c over_quota w rs p size clk).
@@ -95,6 +96,17 @@ Definition classify (w : world) (folder : str) (rs : list str) (p : parsed) (clk
     let '(_, atts) := deliver_all w folder rs p clk 0 in
     if existsb (mismatch (results_of atts)) atts then Some CDupLastResult
     else None.
+
+(** the class under a configuration: a DELIVERED position answered from another
+    attempt's result *)
+Definition classify_cfg (c : cfg) (over_quota : str -> bool) (w : world) (rs : list str) (p : parsed)
+           (size : Z) (clk : nat -> Z) : option c01class :=
+  if (c_max_size c <? size) || negb (p_ok p) then None
+  else
+    let skip := skipped c over_quota in
+    let '(_, atts) := deliver_all_q skip w (c_folder c) rs p clk 0 in
+    if existsb (fun a => negb (skip (a_rcpt a)) && mismatch (results_q skip atts) a) atts
+    then Some CDupLastResult else None.
 
 (** ---- "an acceptable recipient is not refused" ------------------------------------- *)
 
